@@ -25,6 +25,33 @@ CHECKS['C16'] = dict(cat='proof', ref='DESIGN.md §7 C16, Appendix A.1, notes/C1
    technique='Coq proof (Myers diff invariants F1-F3,B1,O1,E1,T1,T2) over a Gallina model of diff.go + differential correspondence via go test -overlay',
    note=TB + ' Editor-specific application and UTF-16 columns are not modelled (all characters are 0). Finding fixed in /repo 778ab02 (lone CR line ends).')
 
+CHECKS['C05'] = dict(cat='proof', ref='DESIGN.md §7 C05, notes/C05.md',
+   text='Kernel-checked for ALL patterns, file names, prefixes and glob engines (the engine is a Section variable, nothing assumed): the Go and Rego '
+        'pattern expansions coincide, root-relative names coincide for every rule kind, --ignore-files replaces the config list on both sides, filterPaths '
+        'returns exactly the order-preserving sublist matched by no non-empty pattern, a matching file yields no violation of the ignored rules and is not scanned '
+        'when ignored globally, a non-matching file is never dropped. The model is compared with FilterIgnoredPaths, the OPA-evaluated data.regal.config/main helpers, '
+        'linter.Lint, the regal binary and the LSP call sites over all patterns of <=3 tokens (4 in thorough) x 340 paths x 9 prefix/spelling shapes, gobwas/glob as oracle table.',
+   technique='Coq proof over a Gallina model of filter.go + exclusion.rego (glob engine as oracle) + differential correspondence (Go API, OPA helper evaluation, binary, LSP overlay)',
+   note=TB + ' Domain: every expanded pattern compiles in gobwas/glob (outside it Go errors, Rego says no match). One open finding (relative argument with cwd != project root); '
+        'three defects repaired in /repo (5296c24, 85ee130, e493c86).')
+
+CHECKS['C10'] = dict(cat='proof', ref='DESIGN.md §7 C10, notes/C10.md',
+   text='Kernel-checked for ALL reports: exit status is 1 iff linting failed, else 3/2/0 exactly as stated for both fail levels; each format (pretty/festive, github at byte level incl. '
+        'workflow-command escaping round trip, sarif incl. notices, junit, json) carries every violation exactly once with file, position, rule and level under stated hypotheses whose '
+        'necessity is shown by _refuted witnesses; JSON decode(encode r) = r modulo json:"-" fields; compact carries only file and position (open finding). Generated reports go '
+        'through the 7 real reporters and are read back by independent parsers, compared inside Coq with the model; exit codes and stdout through the real binary on 6-7 workspaces x 2 fail levels x 7 formats.',
+   technique='Coq proof over executable models of cmd/lint.go, main.go, pkg/reporter, pkg/report + differential correspondence (real reporters, real binary, independent output parsers)',
+   note=TB + ' Output parsers of the harness are trusted glue. Four defects repaired in /repo (669b4f4 JUnit n^2, 37fa06a XML control chars, ef39a79 UTF-8 cut, 6b7e728 GitHub escaping); '
+        'open finding: compact omits rule and level.')
+
+CHECKS['C08'] = dict(cat='other', ref='DESIGN.md §7 C08, notes/C08.md',
+   text='Partial by nature: there is no Coq semantics of Rego/OPA, so no theorem speaks about rule bodies. Kernel-checked: the layout layer (blank-line insertion, CRLF conversion, '
+        'appending a rule: each original line sits at a computed row with identical content, operations commute, regal\'s line table is independent of line ends) and, by vm_compute '
+        'over the docs table regenerated from /repo on every run, that rule directories, docs pages and the provided config correspond and every page has a well-formed Avoid/Prefer pair or a reasoned '
+        'exception with a fixture. The sensitivity/specificity claim itself is decided by enumeration: every table row x embeddings of the grammar linted with only that rule enabled.',
+   technique='enumeration of the regenerated docs table x layout grammar through linter.Lint, with a Coq-proved layout model (correspondence of texts, rows and line tables) and vm_compute obligations over Gen/GenDocs.v',
+   note=TB + ' The oracle is the documentation\'s own Avoid/Prefer labelling; 31 pages need fixtures under corpus/C08. Defects repaired in /repo: ba0fc92, 5309b36 (docs), dd4570e.')
+
 NOT_YET = {}
 
 def main():
